@@ -86,7 +86,8 @@ fn run_case(_kind: &str, idx: u64, rng: &mut Rng, mon: &mut Mon, _tier: Tier) {
         to[j] = t;
     }
     let w = weight(rng);
-    let cons = Constraints::new(from, to, w);
+    // (a third of the limit sets is installed through update_range on an earlier, different set)
+    let cons = if rng.bool(0.33) { mon.count("limits_via_update_range"); via_update_range(rng, from, to, w) } else { Constraints::new(from, to, w) };
     let limited = build(Arc::new(OPWKinematics::new_with_constraints(to_params(&rp), cons)), &layers);
     let detail = |what: &str, extra: serde_json::Value| json!({"robot": robot_json(&robot), "stack": stack_json(&layers), "entry": e.name(), "q": jf(&q), "prev": jf(&prev), "j6": j6,
         "from": jf(&from), "to": jf(&to), "weight": w, "clause": what, "extra": extra});
